@@ -27,7 +27,7 @@ RULE = ("(1) decode: every 16-bit statusword (exhaustive); (2) transitions: all 
         "thorough) over SDO and RPDO. Signature = (workload, start, target, delay, transport) / (mode, supported?); all "
         "transition cases with start != target are non-trivial.")
 RULE += (" " + 'Widened later: histories on one node object and one drive (spontaneous faults, persisting fault causes, power cycles), quick stop that ends by itself, PDO event timers, frames stamped 0.0, signalled reception under an exit gate, non-termination guard judged on logical evidence; automatic-transition delays {0,1,2,3,4,6} in quick and up to 12 in thorough.')
-RULE += (" " + "Widened later: the full 16-bit statusword sweep is repeated with the statusword arriving in TPDO frames, in shuffled order.")
+RULE += (" " + "Widened later: the full 16-bit statusword sweep is repeated with the statusword arriving in TPDO frames, in shuffled order; transport 'pdo-upload': the library reads the drive's PDO configuration over SDO, PDO 1 keeps the factory mapping but is switched off and PDO 2 carries controlword and statusword.")
 ASSUMPTIONS = ["'in finitely many steps' is judged as <= 12 controlword writes", "library time-outs are raised so that progress is logical",
                "a RuntimeError time-out under threaded PDO transport is inconclusive unless the drive log shows it reached and reported the target"]
 REQUIRED = {"statuswords_decoded": 65536, "transition_cases": 150, "mode_cases": 100}
@@ -39,7 +39,8 @@ COMMANDABLE = (D.SOD, D.RTSO, D.SO, D.OE, D.QSA)
 def plan(tier, seed):
     shards = [{"kind": "decode", "part": i, "parts": 4} for i in range(4)]
     shards += [{"kind": "decode-pdo", "part": i, "parts": 4} for i in range(4)]
-    transports = ["sdo", "pdo", "sdo-disabled-tpdo", "pdo", "pdo-ticked"] if tier == "quick" else ["sdo", "pdo", "sdo-disabled-tpdo"] * 4 + ["pdo-ticked"] * 3
+    transports = (["sdo", "pdo", "sdo-disabled-tpdo", "pdo", "pdo-ticked", "pdo-upload"] if tier == "quick"
+                  else ["sdo", "pdo", "sdo-disabled-tpdo"] * 4 + ["pdo-ticked"] * 3 + ["pdo-upload"] * 2)
     shards += [{"kind": "transitions", "transport": t, "delays": [0, 1, 2, 3, 4, 6] if tier == "quick" else [0, 1, 2, 3, 4, 5, 6, 8, 12],
                 "extras": 3 if tier == "quick" else 12, "cs": seed * 10 + i} for i, t in enumerate(transports)]
     shards += [{"kind": "histories", "transport": t, "count": 12 if tier == "quick" else 300, "length": 14 if tier == "quick" else 30,
@@ -48,8 +49,8 @@ def plan(tier, seed):
     return shards
 
 
-def od402():
-    d = gen.typed_od(rpdos=(1,), tpdos=(1,))
+def od402(pdos=(1,)):
+    d = gen.typed_od(rpdos=pdos, tpdos=pdos)
     d.add_object(gen.variable("Controlword", 0x6040, 0, R.UNSIGNED16))
     d.add_object(gen.variable("Statusword", 0x6041, 0, R.UNSIGNED16, access="ro"))
     d.add_object(gen.variable("Modes of operation", 0x6060, 0, R.INTEGER8))
@@ -113,7 +114,7 @@ class DriveRig:
         self.transport = transport
         self.bus = simbus.SimBus(mode="threaded" if ticked else "inline", max_delay=0.0002)
         self.net, self.st = simbus.make_network(self.bus, "master", zero_ts=zero_ts)
-        self.node = BaseNode402(NODE, od402())
+        self.node = BaseNode402(NODE, od402((1, 2) if transport == "pdo-upload" else (1,)))
         self.net.add_node(self.node)
         self.node.sdo.RESPONSE_TIMEOUT = 5.0 if ticked else 0.2
         for attr in ("TIMEOUT_RESET_FAULT", "TIMEOUT_SWITCH_OP_MODE", "TIMEOUT_SWITCH_STATE_FINAL", "TIMEOUT_SWITCH_STATE_SINGLE", "TIMEOUT_CHECK_TPDO"):
@@ -147,7 +148,29 @@ class DriveRig:
             m.add_variable(0x6061)
             m.cob_id, m.enabled, m.trans_type = self.tpdo_cob, False, 255
             n.setup_402_state_machine(read_pdos=False)
-        if transport.startswith("pdo"):
+        if transport == "pdo-upload":
+            # the library reads the drive's PDO configuration over SDO: PDO 1 still holds the factory mapping but is
+            # switched off (bit 31), PDO 2 is the one the drive uses
+            self.rpdo_cob, self.tpdo_cob = 0x300 + NODE, 0x280 + NODE
+
+            def put(idx, sub, fmt, v):
+                self.server.store[(idx, sub)] = struct.pack(fmt, v)
+            for k, (tc, rc) in enumerate(((0x80000000 | (0x180 + NODE), 0x80000000 | (0x200 + NODE)), (self.tpdo_cob, self.rpdo_cob))):
+                for com, mp, cob, objs in ((0x1800 + k, 0x1A00 + k, tc, ((0x6041, 16), (0x6061, 8))),
+                                           (0x1400 + k, 0x1600 + k, rc, ((0x6040, 16), (0x6060, 8)))):
+                    put(com, 0, "<B", 6)
+                    put(com, 1, "<L", cob)
+                    put(com, 2, "<B", 255)
+                    put(com, 3, "<H", 0)
+                    put(com, 5, "<H", 0)
+                    put(com, 6, "<B", 0)
+                    put(mp, 0, "<B", len(objs))
+                    for i in range(1, 9):
+                        put(mp, i, "<L", (objs[i - 1][0] << 16 | objs[i - 1][1]) if i <= len(objs) else 0)
+            self.node.nmt.state = "PRE-OPERATIONAL"
+            self.node.setup_402_state_machine(read_pdos=True)
+            drive.on_change = self.send_tpdo
+        elif transport.startswith("pdo"):
             n = self.node
             for m, idxs, cob in ((n.tpdo[1], (0x6041, 0x6061), self.tpdo_cob), (n.rpdo[1], (0x6040, 0x6060), self.rpdo_cob)):
                 m.clear()
